@@ -120,6 +120,13 @@ func connectDots(fset *token.FileSet, lhs, rhs []token.Pos, conns map[token.Pos]
 		})
 
 		if i == len(lhs) {
+			// No "..." of the "-" section at or before this one. If each
+			// section has exactly one, they belong together even though the
+			// "+" line was written above the "-" line.
+			if len(lhs) == 1 && len(rhs) == 1 {
+				conns[r] = lhs[0]
+				continue
+			}
 			return fmt.Errorf(`%v: "..." in "+" section does not have an associated "..." in "-" section`, rpos)
 		}
 
